@@ -578,4 +578,5 @@ for _p in ('C13', 'C14'):
     PROPS[_p]['units'] += [u for u in ('definitions.__eq__.plain',) if u not in PROPS[_p]['units']]
 # C15 names Lattice.join/meet among its observation points: the n-ary forms are the lub/glb of C07, hence label-level statements (seeded C15-J)
 PROPS['C15']['units'] += [u for u in ('lattices.join', 'lattices.meet', 'bitsets.Meta.reduce_and', 'bitsets.Meta.reduce_or') if u not in PROPS['C15']['units']]
+PROPS['C09']['units'] += [u for u in ('lemma.bits_subset',) if u not in PROPS['C09']['units']]      # used by lattices.upset_generalization (either spelling of "inside the target")
 NOT_APPLICABLE = {}
